@@ -331,4 +331,3 @@ func hnswOf(e *engine.Engine, name string) *hnsw.Index {
 	h, _ := idx.(*hnsw.Index)
 	return h
 }
-
